@@ -351,6 +351,61 @@ def run(w: World, rep: Report):
     rep.check('C01.R5', 'functions.run_auth_script|delegates', ok, line=wrap.node.lineno, file=rel,
               why='' if ok else 'run_auth_script does not return run_auth_scripts([script], ...)')
 
+    # ---- R6 primitives the verdict is computed with ------------------------------------------
+    rep.rule('C01.R6', 'the primitives the verdict relies on mean what the checks assume: has_terminated is '
+             'pointer >= len(data), len(stack) is the item count, Stack.get removes the top item, run_script returns '
+             'the objects it ran, run_tape loops until its tape has terminated', floor=5)
+    ht = repo.func('classes', 'Tape.has_terminated')
+    rets = [n for n in ast.walk(ht.node) if isinstance(n, ast.Return)]
+    ok = len(rets) == 1 and rets[0].value is not None
+    if ok:
+        try:
+            eq = L.equivalent(L.formula(rets[0].value), L.formula(ast.parse('self.pointer >= len(self.data)', mode='eval').body))[0]
+        except Exception:
+            eq = False
+        ok = eq
+    rep.check('C01.R6', 'classes.Tape.has_terminated|pointer>=len(data)', ok, line=ht.node.lineno, file='tapescript/classes.py',
+              why='' if ok else 'has_terminated is no longer exactly pointer >= len(data): a tape can count as finished '
+              'with instructions left (or never finish)')
+    ln = repo.func('classes', 'Stack.__len__')
+    from .rules_c07 import _storage_attr
+    storage = _storage_attr(w)
+    rets = [n for n in ast.walk(ln.node) if isinstance(n, ast.Return)]
+    ok = len(rets) == 1 and ast.unparse(rets[0].value).replace(' ', '') == f'len(self.{storage})'
+    rep.check('C01.R6', 'classes.Stack.__len__|item-count', ok, line=ln.node.lineno, file='tapescript/classes.py',
+              why='' if ok else 'len(stack) is no longer the number of items on the stack')
+    gt = repo.func('classes', 'Stack.get')
+    rets = [n for n in ast.walk(gt.node) if isinstance(n, ast.Return)]
+    ok = len(rets) == 1 and ast.unparse(rets[0].value).replace(' ', '') == f'self.{storage}.pop()'
+    rep.check('C01.R6', 'classes.Stack.get|pops-top', ok, line=gt.node.lineno, file='tapescript/classes.py',
+              why='' if ok else 'Stack.get no longer removes and returns the most recently put item')
+    rs = repo.func('functions', 'run_script')
+    rcfg = w.cfg(rs)
+    rk = w.kinds(rs)
+    rets = [n for n in rcfg.nodes if n.kind == 'stmt' and isinstance(n.ast, ast.Return)]
+    ok = len(rets) == 1 and isinstance(rets[0].ast.value, ast.Tuple) and len(rets[0].ast.value.elts) == 3
+    if ok:
+        runs = rcfg.nodes_with_call(lambda c: isinstance(c.func, ast.Name) and c.func.id == 'run_tape')
+        ok = len(runs) == 1
+        if ok:
+            rn, rc = runs[0]
+            for i, el in enumerate(rets[0].ast.value.elts):
+                a = rc.args[i] if i < len(rc.args) else None
+                if not (isinstance(el, ast.Name) and isinstance(a, ast.Name) and el.id == a.id):
+                    ok = False
+                elif {d[0].id for d in rcfg.defs_reaching(el.id, rets[0])} != {d[0].id for d in rcfg.defs_reaching(a.id, rn)}:
+                    ok = False
+    rep.check('C01.R6', 'functions.run_script|returns-what-it-ran', ok, line=rs.node.lineno, file=rel,
+              why='' if ok else 'run_script does not return exactly the (tape, stack, cache) it passed to run_tape')
+    rt = repo.func('functions', 'run_tape')
+    loops = [n for n in ast.walk(rt.node) if isinstance(n, ast.While)]
+    ok = len(loops) == 1 and ast.unparse(loops[0].test).replace(' ', '') == f'not{rt.params[0]}.has_terminated()' \
+        and not any(isinstance(n, (ast.Break, ast.Return)) for n in ast.walk(loops[0])) \
+        and not any(isinstance(n, ast.Try) for n in ast.walk(rt.node))
+    rep.check('C01.R6', 'functions.run_tape|runs-until-terminated', ok, line=rt.node.lineno, file=rel,
+              why='' if ok else 'run_tape can stop before its tape has terminated (break / return / swallowed exception '
+              'inside the fetch loop)')
+
     rep.explanation = (
         'Decides the structural clauses of C01: (R1) typestate proof that the RETURN control '
         'flag is clear when each later script starts, so state left by an earlier script '
